@@ -127,6 +127,44 @@ def run(ctx):
                   "{k: v / mean(D.values()) for k, v in D.items()}", f"normalised result is {T.show(T.alpha(ret))[:200]}")
 
 
+    ctx.clause("the band is a set of distinct PIXELS: every position put into it has integer coordinates")
+    wk = repo.func(f"{MY}.walk_two_vertices")
+    ctx.touch(wk)
+    swk = sym.summarize(repo, wk.qualname)
+    gl = [e for e in swk.calls() if e.target == f"{MY}.get_layer_elements" and e.loops()]
+    if not gl:
+        raise AnalysisError("walk_two_vertices: call of get_layer_elements inside the walk not found - re-bind the anchor")
+    INT_CALLS = {"int", "math.floor", "math.ceil", "math.trunc", "numpy.rint", "numpy.floor", "numpy.ceil", "numpy.trunc"}
+    for e in gl:
+        loopvar = ("bv", e.loops()[-1][1])
+        pos = e.args[0]
+        leaves = []
+
+        def comps(t):
+            if t[0] == "phi":
+                comps(t[2]); comps(t[3])
+            elif t[0] == "seq":
+                leaves.extend(t[1])
+            else:
+                leaves.append(t)
+        comps(pos)
+
+        def integral(t):
+            if t == loopvar or (t[0] == "num" and t[1].denominator == 1):
+                return True
+            if t[0] == "call" and t[1] in INT_CALLS:
+                return True
+            if t[0] == "call" and t[1] == "round" and len(t[2]) == 1:
+                return True
+            if t[0] == "phi":
+                return integral(t[2]) and integral(t[3])
+            return False
+        bad = [t for t in leaves if not integral(t)]
+        ctx.check(not bad, "KEY", f"{wk.qualname} / KEY / band positions are integer pixel coordinates", ctx.where(wk, e.node),
+                  "each coordinate is the integer walk variable or an int()/floor/ceil/round of the interpolated one",
+                  f"a band position carries the float coordinate {T.show(T.alpha(bad[0]))[:100] if bad else ''}: different float positions inside one pixel are "
+                  f"kept as different set elements and Image.getpixel truncates them to the same pixel, which is then summed more than once")
+
     ctx.clause("read_myosin hands the chosen interface list and every option to get_intensities in the right slots")
     rm = repo.func(f"{MY}.read_myosin")
     ctx.touch(rm)
@@ -149,6 +187,7 @@ def run(ctx):
 
 _P = "forsys/myosin.py"
 PINNED = [
+    ("F17 reintroduced: float band positions", _P, "        other = int(interpolation(value))\n", "        other = interpolation(value)\n"),
     ("read_myosin swaps integrate and normalize", _P, "                           image,\n                           integrate,\n                           normalize,\n                           layers,", "                           image,\n                           normalize,\n                           integrate,\n                           layers,"),
     ("read_myosin defaults to all interfaces", _P, '    if kwargs.get("use_all", False):', '    if kwargs.get("use_all", True):'),
     ("F10 reintroduced: key by list.index", _P, "        key_to_use = be_id\n", "        key_to_use = big_edges.index(big_edge)\n"),
